@@ -18,7 +18,7 @@ Require Import V.Proofs.C05Readable.
 Require Import V.Proofs.SubscriptionProofs.
 Require Import V.Proofs.AssemblerProofs.
 Require Import V.Proofs.C20OracleProofs.
-From Coq Require Import ZifyBool.
+From Coq Require Import ZifyBool Permutation.
 Open Scope Z_scope.
 
 (* ---- poll_inner as one pass over the rotated list, keeping the share of every image ---- *)
@@ -370,13 +370,13 @@ Proof. destruct d as [o f]. reflexivity. Qed.
 Lemma pass_judged ps : forall imgs limit read rd imgs' shares,
   Forall good imgs -> NoDup (map slot_session imgs) ->
   poll_seq pk imgs limit read = (rd, imgs', shares) ->
-  (forall sl', In sl' imgs' -> pos_at ps (slot_id sl') = im_pos (slot_image sl')) ->
-  judge_shares jp_gen cnt (map oslot_of imgs) (concat (map (map raw) shares)) limit read ps = (true, rd) /\
+  ((forall sl', In sl' imgs' -> pos_at ps (slot_id sl') = im_pos (slot_image sl')) ->
+   judge_shares jp_gen cnt (map oslot_of imgs) (concat (map (map raw) shares)) limit read ps = (true, rd)) /\
   Forall2 (fun sl sh => forall d, In d sh -> In d (seg_frames (oslot_of sl))) imgs shares /\
   Forall2 (fun sl sl' => slot_ok sl' /\ im_closed (slot_image sl') = false /\ slot_log sl' = slot_log sl /\
                          slot_session sl' = slot_session sl /\ slot_id sl' = slot_id sl /\
                          oslot_of sl' = os_with_pos (oslot_of sl) (im_pos (slot_image sl'))) imgs imgs'.
-Proof. induction imgs as [|sl r IH]; intros limit read rd imgs' shares Hg Hnd E Hps; cbn [poll_seq] in E.
+Proof. induction imgs as [|sl r IH]; intros limit read rd imgs' shares Hg Hnd E; cbn [poll_seq] in E.
   - inversion E; subst. cbn [map concat judge_shares]. repeat split; constructor.
   - inversion Hg as [|? ? (Hok & Hopen & Hraw) Hgr]; subst. cbn [map] in Hnd. inversion Hnd as [|? ? Hnotin Hndr]; subst.
     destruct (pk_facts sl (limit - read) Hok Hopen) as [Hf Hc].
@@ -402,12 +402,13 @@ Proof. induction imgs as [|sl r IH]; intros limit read rd imgs' shares Hg Hnd E 
           destruct sl as [[[[[id bits] init] se] sg] im]. cbn [oslot_of os_pos slot_image]. apply judge_nw_idle.
         + destruct sl as [[[[[id bits] init] se] sg] im]. reflexivity. }
     destruct Hstep as (n & sl1 & sh & rd1 & r1 & ys & E1 & -> & -> & -> & Hcn & Hin & Hjp & B1 & B2 & B3 & B4 & B5 & B6).
-    assert (Hps' : forall sl', In sl' r1 -> pos_at ps (slot_id sl') = im_pos (slot_image sl')) by (intros; apply Hps; right; assumption).
-    destruct (IH limit (read + n) rd1 r1 ys Hgr Hndr E1 Hps') as (J1 & J2 & J3).
+    destruct (IH limit (read + n) rd1 r1 ys Hgr Hndr E1) as (J1 & J2 & J3).
     assert (Hsess : forall d, In d sh -> f_session (snd d) = slot_session sl).
     { intros d Hd. apply seg_frames_session; auto. }
     split; [|split].
-    + cbn [map concat judge_shares].
+    + intros Hps.
+      assert (Hps' : forall sl', In sl' r1 -> pos_at ps (slot_id sl') = im_pos (slot_image sl')) by (intros; apply Hps; right; assumption).
+      specialize (J1 Hps'). cbn [map concat judge_shares].
       assert (Hmap : map raw sh = map (frag_obs m (slot_log sl)) sh).
       { apply map_ext_in. intros d Hd. apply Hraw. apply Hsess. assumption. }
       assert (Hse : os_session (oslot_of sl) = slot_session sl) by (destruct sl as [[[[[? ?] ?] ?] ?] ?]; reflexivity).
@@ -609,3 +610,202 @@ Proof. apply forallb_forall. intros x Hx. apply in_map_iff in Hx as ([s mm] & <-
   destruct sl as [[[[[? ?] ?] ?] ?] ?]. cbn [oslot_of os_session slot_session] in *. lia. Qed.
 
 End Sessions.
+
+(* ---- bookkeeping: ids, positions, rotation ---- *)
+Lemma distinct_nodup : forall l, distinct l = true -> NoDup l.
+Proof. induction l as [|x r IH]; intros H; [constructor|]. cbn [distinct] in H. apply andb_prop in H as [H1 H2].
+  constructor; [|apply IH; assumption]. intros Hin. assert (existsb (Z.eqb x) r = true).
+  { apply existsb_exists. exists x. split; [assumption|apply Z.eqb_refl]. } rewrite H in H1. discriminate. Qed.
+
+Lemma map_os_session l : map os_session (map oslot_of l) = map slot_session l.
+Proof. induction l as [|[[[[[? ?] ?] ?] ?] ?] r IH]; [reflexivity|]. cbn [map]. rewrite IH. reflexivity. Qed.
+
+Lemma slot_of_session_in : forall all sl, NoDup (map slot_session all) -> In sl all -> slot_of_session (slot_session sl) all = Some sl.
+Proof. induction all as [|x r IH]; intros sl Hnd Hin; [destruct Hin|]. cbn [map] in Hnd. inversion Hnd as [|? ? Hni Hr]; subst.
+  cbn [slot_of_session]. destruct Hin as [->|Hin]; [rewrite Z.eqb_refl; reflexivity|].
+  destruct (slot_session x =? slot_session sl) eqn:E; [|apply IH; assumption].
+  exfalso. apply Hni. assert (slot_session x = slot_session sl) by lia. rewrite H. apply in_map. assumption. Qed.
+
+Lemma raw_obs_good m all sl : NoDup (map slot_session all) -> In sl all ->
+  forall d, f_session (snd d) = slot_session sl -> raw_obs m all d = frag_obs m (slot_log sl) d.
+Proof. intros Hnd Hin d Hd. unfold raw_obs. rewrite Hd, (slot_of_session_in all sl Hnd Hin). reflexivity. Qed.
+
+Lemma find_slot_in : forall all sl, NoDup (map slot_id all) -> In sl all -> find_slot (slot_id sl) all = Some sl.
+Proof. induction all as [|x r IH]; intros sl Hnd Hin; [destruct Hin|]. cbn [map] in Hnd. inversion Hnd as [|? ? Hni Hr]; subst.
+  cbn [find_slot]. destruct Hin as [->|Hin]; [rewrite Z.eqb_refl; reflexivity|].
+  destruct (slot_id x =? slot_id sl) eqn:E; [|apply IH; assumption].
+  exfalso. apply Hni. assert (slot_id x = slot_id sl) by lia. rewrite H. apply in_map. assumption. Qed.
+
+Lemma positions_nth all : forall n id0 id, id0 <= id < id0 + Z.of_nat n ->
+  nth (Z.to_nat (id - id0)) (positions n id0 all) 0
+  = match find_slot id all with Some sl => im_pos (slot_image sl) | None => 0 end.
+Proof. induction n; intros id0 id H; [lia|]. cbn [positions]. destruct (Z.eq_dec id id0).
+  - subst. rewrite Z.sub_diag. reflexivity.
+  - replace (Z.to_nat (id - id0)) with (S (Z.to_nat (id - (id0 + 1)))) by lia. cbn [nth]. apply IHn. lia. Qed.
+
+Lemma pos_at_positions nslots all sl : NoDup (map slot_id all) -> In sl all -> 0 <= slot_id sl < Z.of_nat nslots ->
+  pos_at (positions nslots 0 all) (slot_id sl) = im_pos (slot_image sl).
+Proof. intros Hnd Hin Hr. unfold pos_at. pose proof (positions_nth all nslots 0 (slot_id sl) ltac:(lia)) as H.
+  rewrite Z.sub_0_r in H. rewrite H, (find_slot_in all sl Hnd Hin). reflexivity. Qed.
+
+Lemma Forall2_app_split {A B} (R : A -> B -> Prop) : forall a1 a2 b1 b2, length a1 = length b1 ->
+  Forall2 R (a1 ++ a2) (b1 ++ b2) -> Forall2 R a1 b1 /\ Forall2 R a2 b2.
+Proof. induction a1 as [|x a1 IH]; intros a2 b1 b2 Hl H; destruct b1 as [|y b1]; try discriminate; cbn [app] in *.
+  - split; [constructor|assumption].
+  - inversion H; subst. destruct (IH a2 b1 b2 ltac:(cbn in Hl; lia) H5) as [IH1 IH2]. split; [constructor; assumption|assumption]. Qed.
+
+Lemma Forall2_rotation {A B} (R : A -> B -> Prop) k (a : list A) (b : list B) :
+  length a = length b -> Forall2 R (rotation k a) (rotation k b) -> Forall2 R a b.
+Proof. unfold rotation. intros Hl H. apply Forall2_app_split in H as [H1 H2]; [|rewrite !skipn_length; lia].
+  rewrite <- (firstn_skipn (Z.to_nat k) a), <- (firstn_skipn (Z.to_nat k) b). apply Forall2_app; assumption. Qed.
+
+Lemma rotation_perm_in {A} k (l : list A) x : In x (rotation k l) <-> In x l.
+Proof. unfold rotation. rewrite in_app_iff. rewrite <- (firstn_skipn (Z.to_nat k) l) at 3. rewrite in_app_iff. tauto. Qed.
+
+Lemma map_rotation {A B} (f : A -> B) k l : map f (rotation k l) = rotation k (map f l).
+Proof. unfold rotation. rewrite map_app, skipn_map, firstn_map. reflexivity. Qed.
+
+Lemma NoDup_rotation {A} k (l : list A) : NoDup l -> NoDup (rotation k l).
+Proof. unfold rotation. intros H. rewrite <- (firstn_skipn (Z.to_nat k) l) in H.
+  eapply Permutation.Permutation_NoDup; [apply Permutation.Permutation_app_comm|exact H]. Qed.
+
+(* ---- the state the oracle keeps agrees with the model's ---- *)
+Definition st_rel (ost : ostate20) (st : sstate) : Prop :=
+  let '(oa, op, orr, spec) := ost in
+  let '(absent, s, bs) := st in
+  oa = map oslot_of absent /\ op = map oslot_of (s_images s) /\ orr = s_rr s /\ (forall se, bget spec se = bget bs se).
+
+Definition st_inv (nslots : nat) (st : sstate) : Prop :=
+  let '(absent, s, bs) := st in
+  Forall slot_ok (absent ++ s_images s) /\
+  Forall (fun sl => im_closed (slot_image sl) = false) (s_images s) /\
+  NoDup (map slot_id (absent ++ s_images s)) /\
+  Forall (fun sl => 0 <= slot_id sl < Z.of_nat nslots) (absent ++ s_images s) /\
+  0 <= s_rr s.
+
+Lemma update_positions_rel ps : forall l l',
+  Forall2 (fun sl sl' => slot_id sl' = slot_id sl /\ oslot_of sl' = os_with_pos (oslot_of sl) (im_pos (slot_image sl'))) l l' ->
+  (forall sl', In sl' l' -> pos_at ps (slot_id sl') = im_pos (slot_image sl')) ->
+  update_positions (map oslot_of l) ps = map oslot_of l'.
+Proof. induction 1 as [|sl sl' l l' [Hid Ho] _ IH]; intros Hps; [reflexivity|]. cbn [map update_positions].
+  rewrite IH by (intros; apply Hps; right; assumption). f_equal.
+  assert (E : os_id (oslot_of sl) = slot_id sl) by (destruct sl as [[[[[? ?] ?] ?] ?] ?]; reflexivity).
+  rewrite E, <- Hid, (Hps sl' (or_introl eq_refl)). symmetry. exact Ho. Qed.
+
+Lemma update_positions_same ps l :
+  (forall sl, In sl l -> pos_at ps (slot_id sl) = im_pos (slot_image sl)) -> update_positions (map oslot_of l) ps = map oslot_of l.
+Proof. intros H. apply update_positions_rel; [|assumption]. induction l as [|[[[[[? ?] ?] ?] ?] ?] r IH]; constructor.
+  - split; reflexivity.
+  - apply IH. intros; apply H; right; assumption. Qed.
+
+Lemma unmoved_same ps l :
+  (forall sl, In sl l -> pos_at ps (slot_id sl) = im_pos (slot_image sl)) -> unmoved (map oslot_of l) ps = true.
+Proof. intros H. unfold unmoved. apply forallb_forall. intros o Ho. apply in_map_iff in Ho as (sl & <- & Hsl).
+  specialize (H sl Hsl). destruct sl as [[[[[? ?] ?] ?] ?] ?]. cbn [oslot_of os_id os_pos slot_id slot_image] in *. lia. Qed.
+
+Lemma nodup_app_r {A} (a b : list A) : NoDup (a ++ b) -> NoDup b.
+Proof. induction a; cbn [app]; intros H; [assumption|]. inversion H; subst. auto. Qed.
+
+Section PollStep.
+Variable m : mode.
+Variable nslots : nat.
+(* the flavour: Image::poll or Image::controlled_poll with the harness' answers *)
+Variable pk : slot -> Z -> Z * slot * list dlv.
+Variable sc_of : slot -> list action.
+Variable osc : oslot -> list action.
+Variable cnt : list fobs -> Z.
+Hypothesis cnt_nil : cnt [] = 0.
+Hypothesis pk_facts : forall sl lim, slot_ok sl -> im_closed (slot_image sl) = false ->
+  img_facts m sl lim (sc_of sl) (pk sl lim) /\
+  (let '(n, _, ds) := pk sl lim in cnt (map (frag_obs m (slot_log sl)) ds) = n).
+Hypothesis osc_ok : forall sl, os_wf (oslot_of sl) = true -> osc (oslot_of sl) = sc_of sl.
+
+Definition slot_rel (sl sl' : slot) : Prop :=
+  slot_ok sl' /\ im_closed (slot_image sl') = false /\ slot_log sl' = slot_log sl /\
+  slot_session sl' = slot_session sl /\ slot_id sl' = slot_id sl /\
+  oslot_of sl' = os_with_pos (oslot_of sl) (im_pos (slot_image sl')).
+
+Lemma Forall2_map_eq {A B} (f : A -> B) (R : A -> A -> Prop) l l' :
+  (forall a a', R a a' -> f a' = f a) -> Forall2 R l l' -> map f l' = map f l.
+Proof. intros H. induction 1; [reflexivity|]. cbn [map]. rewrite (H _ _ H0), IHForall2. reflexivity. Qed.
+
+Lemma Forall2_concat_in {A B} (R : A -> B -> Prop) : forall (l : list A) (ss : list (list B)),
+  Forall2 (fun a sh => forall d, In d sh -> R a d) l ss -> forall d, In d (concat ss) -> exists a, In a l /\ R a d.
+Proof. induction 1 as [|a sh l ss Ha _ IH]; intros d Hd; [destruct Hd|]. cbn [concat] in Hd. apply in_app_or in Hd as [Hd|Hd].
+  - exists a. split; [left; reflexivity|apply Ha; assumption].
+  - destruct (IH d Hd) as (a2 & Ha2 & Hr). exists a2. split; [right; assumption|assumption]. Qed.
+
+(* everything the oracle checks about the fragments of one subscription poll, and the state afterwards *)
+Lemma poll_core absent (s : sub slot) bs limit :
+  st_inv nslots (absent, s, bs) -> NoDup (map slot_session (absent ++ s_images s)) ->
+  let raw := raw_obs m (absent ++ s_images s) in
+  let '(total, s', ds, _) := poll_inner pk s limit in
+  let ps := positions nslots 0 (absent ++ s_images s') in
+  let start := fst (rr_next (Z.of_nat (length (s_images s))) (s_rr s)) in
+  let order := rotation start (map oslot_of (s_images s)) in
+  judge_shares (jp_gen osc cnt) cnt order (map raw ds) limit 0 ps = (true, total) /\
+  fair_first order (map raw ds) limit = true /\
+  unmoved (map oslot_of absent) ps = true /\
+  update_positions (map oslot_of absent) ps = map oslot_of absent /\
+  update_positions (map oslot_of (s_images s)) ps = map oslot_of (s_images s') /\
+  s_rr s' = snd (rr_next (Z.of_nat (length (s_images s))) (s_rr s)) /\
+  st_inv nslots (absent, s', bs) /\
+  Forall (good m raw) (s_images s) /\
+  (forall d, In d ds -> exists sl, In sl (s_images s) /\ In d (seg_frames (oslot_of sl))) /\
+  map slot_session (absent ++ s_images s') = map slot_session (absent ++ s_images s).
+Proof. intros (Hok & Hopen & Hids & Hrange & Hrr) Hnd. cbv zeta.
+  pose proof (poll_inner_seq pk s limit) as Hseq. cbv zeta in Hseq.
+  destruct (poll_inner pk s limit) as [[[total s'] ds] polled].
+  set (start := fst (rr_next (Z.of_nat (length (s_images s))) (s_rr s))) in *.
+  destruct (poll_seq pk (rotation start (s_images s)) limit 0) as [[rd imgs'] shares] eqn:Eseq.
+  destruct Hseq as (-> & -> & Hrr' & Hrot & Hlen). subst imgs'.
+  set (raw := raw_obs m (absent ++ s_images s)).
+  assert (Hgood : Forall (good m raw) (s_images s)).
+  { apply Forall_forall. intros sl Hsl. rewrite Forall_forall in Hok, Hopen. split; [apply Hok; apply in_or_app; right; assumption|].
+    split; [apply Hopen; assumption|]. apply raw_obs_good; [assumption|apply in_or_app; right; assumption]. }
+  assert (Hgood_rot : Forall (good m raw) (rotation start (s_images s))).
+  { apply Forall_forall. intros sl Hsl. rewrite Forall_forall in Hgood. apply Hgood. apply rotation_perm_in in Hsl. assumption. }
+  assert (Hnd_imgs : NoDup (map slot_session (s_images s))).
+  { rewrite map_app in Hnd. apply nodup_app_r in Hnd. assumption. }
+  assert (Hnd_rot : NoDup (map slot_session (rotation start (s_images s)))) by (rewrite map_rotation; apply NoDup_rotation; assumption).
+  set (ps := positions nslots 0 (absent ++ s_images s')).
+  destruct (pass_judged m raw pk sc_of osc cnt cnt_nil pk_facts osc_ok ps _ _ _ _ _ _ Hgood_rot Hnd_rot Eseq) as (J1 & J2 & J3).
+  fold slot_rel in J3.
+  assert (Hrel : Forall2 slot_rel (s_images s) (s_images s')) by (eapply Forall2_rotation; [symmetry; exact Hlen|exact J3]).
+  assert (Hid_eq : map slot_id (s_images s') = map slot_id (s_images s))
+    by (apply (Forall2_map_eq slot_id slot_rel); [intros a a' (_ & _ & _ & _ & H & _); exact H|exact Hrel]).
+  assert (Hse_eq : map slot_session (s_images s') = map slot_session (s_images s))
+    by (apply (Forall2_map_eq slot_session slot_rel); [intros a a' (_ & _ & _ & H & _); exact H|exact Hrel]).
+  assert (Hinv' : st_inv nslots (absent, s', bs)).
+  { unfold st_inv. rewrite Forall_app in Hok, Hrange. destruct Hok as [Hoka Hokp]. destruct Hrange as [Hra Hrp].
+    split; [apply Forall_app; split; [assumption|]|].
+    { clear -Hrel. induction Hrel as [|a b l l' (H & _) _ IH]; constructor; assumption. }
+    split. { clear -Hrel. induction Hrel as [|a b l l' (_ & H & _) _ IH]; constructor; assumption. }
+    split. { rewrite map_app, Hid_eq, <- map_app. assumption. }
+    split. { apply Forall_app. split; [assumption|].
+             clear -Hrel Hrp. induction Hrel as [|a b l l' (_ & _ & _ & _ & H & _) _ IH]; [constructor|].
+             inversion Hrp; subst. constructor; [rewrite H; assumption|apply IH; assumption]. }
+    rewrite Hrr'. pose proof (rr_next_range (Z.of_nat (length (s_images s))) (s_rr s) ltac:(lia) Hrr) as Hn.
+    destruct (rr_next (Z.of_nat (length (s_images s))) (s_rr s)). cbn [snd]. lia. }
+  destruct Hinv' as (Hok' & Hopen' & Hids' & Hrange' & Hrr2).
+  assert (Hps_all : forall sl, In sl (absent ++ s_images s') -> pos_at ps (slot_id sl) = im_pos (slot_image sl)).
+  { intros sl Hsl. apply pos_at_positions; [assumption|assumption|]. rewrite Forall_forall in Hrange'. apply Hrange'. assumption. }
+  assert (Hps_new : forall sl', In sl' (rotation start (s_images s')) -> pos_at ps (slot_id sl') = im_pos (slot_image sl')).
+  { intros sl' Hsl'. apply Hps_all. apply in_or_app. right. apply rotation_perm_in in Hsl'. assumption. }
+  specialize (J1 Hps_new).
+  rewrite <- map_rotation, concat_map.
+  split; [exact J1|]. split.
+  { apply (fair_first_pass m raw pk sc_of (rotation start (s_images s)) limit rd (rotation start (s_images s')) shares);
+      [intros; apply pk_facts; assumption|assumption|].
+    exact Eseq. }
+  split. { apply unmoved_same. intros sl Hsl. apply Hps_all. apply in_or_app. left. assumption. }
+  split. { apply update_positions_same. intros sl Hsl. apply Hps_all. apply in_or_app. left. assumption. }
+  split. { apply update_positions_rel.
+           - clear -Hrel. induction Hrel as [|a b l l' (_ & _ & _ & _ & H1 & H2) _ IH]; constructor; [split; assumption|assumption].
+           - intros sl' Hsl'. apply Hps_all. apply in_or_app. right. assumption. }
+  split; [exact Hrr'|]. split; [repeat split; assumption|]. split; [exact Hgood|]. split.
+  { intros d Hd. destruct (Forall2_concat_in (fun sl d => In d (seg_frames (oslot_of sl))) _ _ J2 d Hd) as (sl & Hsl & Hin).
+    exists sl. split; [apply rotation_perm_in in Hsl; assumption|assumption]. }
+  rewrite !map_app, Hse_eq. reflexivity. Qed.
+
+End PollStep.
